@@ -368,3 +368,102 @@ Proof.
   destruct (chunked_message_codec parseTr cs 0 rest Hok Hr ltac:(left; lia) ltac:(rewrite Hc; exact Ha)) as (pk & E1 & E2).
   exists pk. unfold enc_chunked_message in *. rewrite Hc in *. split; [exact Wire|]. split; [exact E2|exact E1].
 Qed.
+
+(* ---- streams that copy themselves (WriteTo), given as the list of their Write calls ---- *)
+Definition nonempty_segs (segs : list bytes) : list bytes := filter (fun p => negb (beq p [])) segs.
+
+Lemma concat_nonempty_segs segs : concat (nonempty_segs segs) = concat segs.
+Proof.
+  induction segs as [|p segs IH]; [reflexivity|]. cbn [nonempty_segs filter concat].
+  destruct p as [|x p']; cbn [beq negb]; [exact IH|]. cbn [concat]. fold (nonempty_segs segs). now rewrite IH.
+Qed.
+Lemma nonempty_segs_ne segs : Forall (fun c => c <> []) (nonempty_segs segs).
+Proof.
+  unfold nonempty_segs. apply Forall_forall. intros c Hc. apply filter_In in Hc as [_ Hc].
+  intros ->. discriminate.
+Qed.
+
+Lemma writeTo_chunked_healthy : forall segs w, healthy w -> Forall (fun p => blen p < 16 ^ maxHexIntChars64) segs ->
+  exists w', writeTo_chunked w segs = (w', WOk) /\ healthy w' /\ bw_size w' = bw_size w /\
+             bw_wire w' = bw_wire w ++ concat (map enc_chunk (nonempty_segs segs)).
+Proof.
+  induction segs as [|p segs IH]; intros w Hw Hlen; cbn [writeTo_chunked].
+  - exists w. split; [reflexivity|]. split; [exact Hw|]. split; [reflexivity|]. cbn. now rewrite app_nil_r.
+  - inversion Hlen as [|? ? Hp Hlen']; subst. destruct p as [|x p'].
+    + (* the empty Write is swallowed by the adapter *)
+      cbn [chunkedBodyWriter_Write nonempty_segs filter beq negb]. apply IH; assumption.
+    + cbn [chunkedBodyWriter_Write].
+      destruct (writeChunk_healthy w (x :: p') Hw Hp) as (w1 & E1 & Hw1 & Sz1 & Wire1). rewrite E1.
+      destruct (IH w1 Hw1 Hlen') as (w' & E & Hw' & Sz & Wire). rewrite E.
+      exists w'. split; [reflexivity|]. split; [exact Hw'|]. split; [congruence|].
+      rewrite Wire, Wire1. cbn [nonempty_segs filter beq negb map concat]. fold (nonempty_segs segs). now rewrite <- app_assoc.
+Qed.
+
+Theorem wire_chunked_wt size hdr trailer cl flush segs : 0 < size -> cl < 0 ->
+  Forall (fun p => blen p < 16 ^ maxHexIntChars64) segs ->
+  exists w', respWriteBodyStreamWT hdr trailer cl true flush (bw_new size (-1)) segs = (w', WOk) /\
+             bw_wire w' = hdr ++ enc_chunks (nonempty_segs segs) ++ trailer.
+Proof.
+  intros Hs Hcl Hlen. unfold respWriteBodyStreamWT.
+  destruct (write_healthy _ hdr (bw_new_healthy size Hs)) as (w1 & E1 & Hw1 & Wire1 & _). rewrite E1. cbn [negb].
+  assert (Hfl : exists w2, (if flush then bw_flush w1 else (w1, true)) = (w2, true) /\ healthy w2 /\ bw_wire w2 = hdr).
+  { destruct flush.
+    - destruct (flush_healthy w1 Hw1) as (w2 & E2 & Hw2 & Wire2 & _). exists w2. split; [exact E2|]. split; [exact Hw2|]. now rewrite Wire2, Wire1.
+    - exists w1. split; [reflexivity|]. split; [exact Hw1|exact Wire1]. }
+  destruct Hfl as (w2 & E2 & Hw2 & Wire2). rewrite E2. cbn [negb].
+  destruct (Z.geb_spec cl 0); [lia|]. unfold writeBodyChunkedWT.
+  destruct (writeTo_chunked_healthy segs w2 Hw2 Hlen) as (w3 & E3 & Hw3 & _ & Wire3). rewrite E3.
+  destruct (writeChunk_healthy w3 [] Hw3 zero_lt_hex) as (w4 & E4 & Hw4 & _ & Wire4). rewrite E4.
+  destruct (write_healthy w4 trailer Hw4) as (w5 & E5 & _ & Wire5 & _). rewrite E5.
+  exists w5. split; [reflexivity|]. rewrite Wire5, Wire4, Wire3, Wire2. unfold enc_chunks. now rewrite <- !app_assoc.
+Qed.
+
+Lemma writeTo_plain_healthy : forall segs w n, healthy w ->
+  exists w', writeTo_plain w segs n = (w', n + blen (concat segs), WOk) /\ healthy w' /\ bw_wire w' = bw_wire w ++ concat segs.
+Proof.
+  induction segs as [|p segs IH]; intros w n Hw; cbn [writeTo_plain concat].
+  - exists w. change (blen []) with 0. rewrite Z.add_0_r, app_nil_r. repeat split; try apply Hw.
+  - destruct (write_healthy w p Hw) as (w1 & E1 & Hw1 & Wire1 & _). rewrite E1.
+    destruct (IH w1 (n + blen p) Hw1) as (w' & E & Hw' & Wire). rewrite E.
+    exists w'. split; [rewrite blen_app; f_equal; f_equal; lia|]. split; [exact Hw'|]. rewrite Wire, Wire1. now rewrite <- app_assoc.
+Qed.
+
+Theorem wire_fixed_wt size hdr trailer flush segs : 0 < size ->
+  exists w', respWriteBodyStreamWT hdr trailer (blen (concat segs)) true flush (bw_new size (-1)) segs = (w', WOk) /\
+             bw_wire w' = hdr ++ concat segs.
+Proof.
+  intros Hs. unfold respWriteBodyStreamWT.
+  destruct (write_healthy _ hdr (bw_new_healthy size Hs)) as (w1 & E1 & Hw1 & Wire1 & _). rewrite E1. cbn [negb].
+  assert (Hfl : exists w2, (if flush then bw_flush w1 else (w1, true)) = (w2, true) /\ healthy w2 /\ bw_wire w2 = hdr).
+  { destruct flush.
+    - destruct (flush_healthy w1 Hw1) as (w2 & E2 & Hw2 & Wire2 & _). exists w2. split; [exact E2|]. split; [exact Hw2|]. now rewrite Wire2, Wire1.
+    - exists w1. split; [reflexivity|]. split; [exact Hw1|exact Wire1]. }
+  destruct Hfl as (w2 & E2 & Hw2 & Wire2). rewrite E2. cbn [negb].
+  pose proof (blen_nonneg (concat segs)). destruct (Z.geb_spec (blen (concat segs)) 0); [|lia].
+  unfold writeBodyFixedSizeWT. destruct (writeTo_plain_healthy segs w2 0 Hw2) as (w3 & E3 & _ & Wire3). rewrite E3.
+  cbn [Z.add]. rewrite Z.eqb_refl. exists w3. split; [reflexivity|]. now rewrite Wire3, Wire2.
+Qed.
+
+(* the peer decodes exactly the concatenation of the segments — empty segments included anywhere — and
+   leaves what follows (the next message) untouched *)
+Theorem chunked_wt_roundtrip size hdr cl flush segs rest parseTr : 0 < size -> cl < 0 ->
+  wf_bytes (concat segs) -> wf_bytes rest -> blen (concat segs) + 2 <= maxAlloc ->
+  exists w' wire_body pk, respWriteBodyStreamWT hdr strCRLF cl true flush (bw_new size (-1)) segs = (w', WOk) /\
+    bw_wire w' = hdr ++ wire_body /\
+    respReadBody parseTr (-1) 0 0 [] (wire_body ++ rest) = BOk (concat segs) rest pk /\
+    reqReadBody parseTr (-1) 0 (wire_body ++ rest) = BOk (concat segs) rest pk.
+Proof.
+  intros Hs Hcl Hwf Hr Ha.
+  assert (Hbig : maxAlloc < 16 ^ maxHexIntChars64) by (vm_compute; reflexivity).
+  assert (Hlen : Forall (fun p => blen p < 16 ^ maxHexIntChars64) segs).
+  { apply Forall_forall. intros p Hp. assert (blen p <= blen (concat segs)); [|lia].
+    clear -Hp. induction segs as [|q segs IH]; [contradiction|]. cbn [concat]. rewrite blen_app.
+    pose proof (blen_nonneg q). pose proof (blen_nonneg (concat segs)). destruct Hp as [->|Hp]; [lia|]. specialize (IH Hp). lia. }
+  destruct (wire_chunked_wt size hdr strCRLF cl flush segs Hs Hcl Hlen) as (w' & E & Wire).
+  exists w', (enc_chunks (nonempty_segs segs) ++ strCRLF).
+  pose proof (concat_nonempty_segs segs) as Hc.
+  assert (Hok : Forall chunk_ok (nonempty_segs segs)).
+  { apply (chunks_ok_of_data _ (concat segs) Hc (nonempty_segs_ne segs) Hwf). lia. }
+  destruct (chunked_message_codec parseTr (nonempty_segs segs) 0 rest Hok Hr ltac:(left; lia) ltac:(rewrite Hc; exact Ha)) as (pk & E1 & E2).
+  exists pk. unfold enc_chunked_message in *. rewrite Hc in *. split; [exact E|]. split; [exact Wire|]. split; [exact E2|exact E1].
+Qed.
